@@ -126,6 +126,98 @@ class FnCtx:
         after = not (m.reachable(a_block, removed_blocks=b_blocks) & rets)
         return after
 
+    # ---- guard-free path search that sees through boolean variables
+    def _tracked_bools(self):
+        """bool locals with several whole definitions that some switch tests"""
+        m = self.mir
+        out = {}
+        for bb, ce in self.ces.items():
+            e = ce.expr
+            if e[0] == "local" and not e[2] and m.locals[e[1]] == "bool":
+                ds = m.whole_defs(e[1])
+                if len(ds) > 1:
+                    out[e[1]] = ds
+        return out
+
+    def _def_expr(self, d):
+        k, bb, i, obj = d
+        if k == "t":
+            return self.eb.call(obj, bb, 0)
+        return self.eb.rvalue(obj.rv, 0)
+
+    def reach_avoiding(self, event_blocks, guard_pred, start=0):
+        """Blocks of `event_blocks` reachable from `start` along paths that take no guard edge.
+        guard_pred(expr, outcome) -> bool is asked for every switch edge with the *effective* condition
+        (a switch on a bool variable is replaced by the expression last assigned to it on that path;
+        constant assignments make the contradicting edge infeasible).  outcome: 'true' | 'false' | int.
+        Returns {event_block: witness path (list of blocks)}."""
+        from collections import deque
+        m = self.mir
+        tracked = self._tracked_bools()
+        defsite = {}
+        for L, ds in tracked.items():
+            for n, d in enumerate(ds):
+                defsite.setdefault(d[1], []).append((d[0], d[2], L, n))
+        start_state = (start, ())
+        prev = {start_state: None}
+        q = deque([start_state])
+        found = {}
+        evset = set(event_blocks)
+        while q:
+            st = q.popleft()
+            bb, tags = st
+            if bb in evset and bb not in found:
+                path = []
+                x = st
+                while x is not None:
+                    path.append(x[0])
+                    x = prev[x]
+                found[bb] = list(reversed(path))
+            tagd = dict(tags)
+            tdefs = defsite.get(bb, [])
+            for (k, i, L, n) in sorted((t for t in tdefs if t[0] == "s"), key=lambda t: t[1]):
+                tagd[L] = n
+            term = m.blocks[bb].term
+            for s in m.succ(bb):
+                tg = dict(tagd)
+                for (k, i, L, n) in tdefs:
+                    if k == "t":
+                        tg[L] = n
+                if term.kind == "switch":
+                    ce = self.ces[bb]
+                    e = ce.expr
+                    tt, ft = ce.true_target, ce.false_target
+                    feasible = True
+                    if e[0] == "local" and not e[2] and e[1] in tagd and tt is not None:
+                        de = self._def_expr(tracked[e[1]][tagd[e[1]]])
+                        neg = False
+                        while de[0] == "un" and de[1] == "Not":
+                            de = de[2]
+                            neg = not neg
+                        if de[0] == "const":
+                            val = bool(de[1]) != neg
+                            if (s == tt) != val and tt != ft:
+                                feasible = False
+                        e = de
+                        if neg:
+                            tt, ft = ft, tt
+                    if not feasible:
+                        continue
+                    if tt is not None and (s == tt or s == ft):
+                        outcome = "true" if s == tt else "false"
+                        outs = [outcome] if tt != ft else ["true", "false"]
+                    else:
+                        outs = [v for v, t in ce.arms if t == s]
+                        if s == ce.otherwise:
+                            outs.append("otherwise")
+                    if any(guard_pred(e, o, ce) for o in outs) and len(outs) == 1:
+                        continue
+                ns = (s, tuple(sorted(tg.items())))
+                if ns not in prev:
+                    prev[ns] = st
+                    q.append(ns)
+        return found
+
     def show(self, e):
         return E.show(e, self.mir)
 
